@@ -152,6 +152,30 @@ def events(ctx):
             yield record("uslp.hdr.rt", {"h": p, "sfx": s})
         else:
             yield record(rng.choice(["pdu.rt", "pdu.fac"]), {"kind": p["kind"], "cfg": p["cfg"], "p": p["p"], "sfx": s})
+    # complete PDUs whose declared data field was consistently SHORTENED (length field and buffer end moved together, CRC
+    # recomputed) so that it may no longer hold the directive's parameters, followed by further octets: if the decoder accepts,
+    # it accepts the same thing without the suffix - parameters are never completed from what follows the PDU
+    import binascii
+    from ..ops_fault import _unit
+    for _ in range(ctx.q(6000, 150000)):
+        u = rnd_unit(rng)
+        if u["k"] != "pdu":
+            u = {"k": "pdu", "p": {"kind": rng.choice(KINDS), "cfg": rnd_cfg(rng), "p": None}}
+            u["p"]["p"] = rnd_params(rng, u["p"]["kind"], u["p"]["cfg"]["large"])
+        try:
+            raw = list(bytes(_unit(u)[0]))
+        except Exception:  # noqa
+            continue
+        cfg = u["p"]["cfg"]
+        hl = 4 + 2 * len(cfg["src"]) + len(cfg["seq"])
+        crc = cfg["crc"]
+        if len(raw) - hl <= 2 * crc:
+            continue
+        n = rng.randrange(2 * crc, len(raw) - hl)
+        b = [raw[0], n >> 8, n & 255] + raw[3:hl] + raw[hl:hl + n - 2 * crc]
+        if crc:
+            b += list(binascii.crc_hqx(bytes(b), 0xFFFF).to_bytes(2, "big"))
+        yield record("sfx.foreign", {"u": u, "octets": b, "sfx": rng.choice([rnd_sfx(rng), [0] * 16, [255] * 9, raw[hl + n - 2 * crc:][:40] or [1]])})
     for _ in range(ctx.q(8000, 150000)):
         n = rng.randrange(2, 9)
         pdus = rng.random() < 0.25
